@@ -2,7 +2,9 @@
   C16Host.lean — property C16, last clause: "… encoding is idempotent and the decoded host re-encodes
   to the same raw host".
 
-  * `URL.host` of an IP literal is the raw host, and `_encode_host` of it is the stored form;
+  * `URL.host` of an IP literal is the raw host, and `_encode_host` of it is the stored form
+    (`URL.host`: `raw[-1].isdigit() and "xn--" not in raw or ":" in raw` — since commit 60dbf1e a
+    digit-ending raw host that contains "xn--" IS decoded; an IPv4 text has no 'x', an IPv6 text has ':');
   * `URL.host` of a registered name is its IDNA decoding, and (with the IDNA round trip stated as a
     hypothesis on the oracle's answers) it re-encodes to the raw host;
   * `_encode_host` is idempotent on ASCII hosts (through `unbracket`), with the exact corner where it
@@ -12,6 +14,7 @@ import YarlModel
 import YarlProofs.C16
 import YarlProofs.C11
 import YarlProofs.Lemmas.StrTotal
+import YarlProofs.Lemmas.SubLemmas
 set_option linter.unusedSimpArgs false
 namespace Yarl
 open HostLemmas NetlocLemmas
@@ -141,18 +144,20 @@ theorem unbracket_of_head {r : Str} (h : r.head? = some 91) : unbracket r = (r.d
     | cons x xs => simp at h; subst h; simp
   simp [unbracket, this]
 
-/-- `host` of a raw host that is IP-looking is the raw host itself -/
+/-- `host` of a raw host that is IP-looking (ends in a digit and has no "xn--", or has a ':') is the
+    raw host itself -/
 theorem host_of_ip_looking (e : Env) (u : Url) (raw : Str) (hraw : rawHost e u = .ok (some raw))
-    (h : (∃ l, raw.getLast? = some l ∧ isDigitC l = true) ∨
+    (h : (∃ l, raw.getLast? = some l ∧ isDigitC l = true ∧ hasSub [120, 110, 45, 45] raw = false) ∨
          (58 ∈ raw ∧ ∀ l, raw.getLast? = some l → ∃ b, isDigitChar e.o l = .ok b)) :
     host e u = .ok (some raw) := by
   unfold host
   rw [hraw]
   simp only [bind, Except.bind]
-  rcases h with ⟨l, hl, hd⟩ | ⟨h58, hor⟩
+  rcases h with ⟨l, hl, hd, hx⟩ | ⟨h58, hor⟩
   · rw [hl]
     have : l < 128 := by simp [isDigitC] at hd; omega
-    simp only [isDigitChar, this, ↓reduceIte, pure, Except.pure, hd, Bool.true_or]
+    simp only [isDigitChar, this, ↓reduceIte, pure, Except.pure, hd, hx, Bool.not_false, Bool.and_self,
+      Bool.true_or]
   · cases hl : raw.getLast? with
     | none =>
       rw [List.getLast?_eq_none_iff] at hl
@@ -161,25 +166,73 @@ theorem host_of_ip_looking (e : Env) (u : Url) (raw : Str) (hraw : rawHost e u =
       obtain ⟨b, hb⟩ := hor l hl
       simp only [hb, mem58_of h58, Bool.or_true, ↓reduceIte, pure, Except.pure]
 
-/-- `host` of an ASCII raw host that is not IP-looking is its IDNA decoding -/
+/-- `host` of an ASCII raw host that is not IP-looking (no ':', and the last character is no digit or
+    "xn--" occurs) is its IDNA decoding -/
 theorem host_of_regname (e : Env) (u : Url) (raw : Str) (hraw : rawHost e u = .ok (some raw))
-    (hasc : isAscii raw = true) (h58 : 58 ∉ raw) (hnd : ∀ l, raw.getLast? = some l → isDigitC l = false) :
+    (hasc : isAscii raw = true) (h58 : 58 ∉ raw)
+    (hnd : (∀ l, raw.getLast? = some l → isDigitC l = false) ∨ hasSub [120, 110, 45, 45] raw = true) :
     host e u = (idnaDecode e.o raw).map some := by
   unfold host
   rw [hraw]
   simp only [bind, Except.bind]
   cases hl : raw.getLast? with
   | none =>
-    simp only [pure, Except.pure, mem_false_iff.mpr h58, Bool.or_self, Bool.false_eq_true, ↓reduceIte]
+    simp only [pure, Except.pure, mem_false_iff.mpr h58, Bool.or_self, Bool.false_eq_true, ↓reduceIte,
+      Bool.false_and]
     cases idnaDecode e.o raw <;> rfl
   | some l =>
     have hlt : l < 128 := by
       have := List.mem_of_getLast? hl
       simp only [isAscii, List.all_eq_true, decide_eq_true_eq] at hasc
       exact hasc l this
-    simp only [isDigitChar, hlt, ↓reduceIte, hnd l hl, pure, Except.pure, mem_false_iff.mpr h58, Bool.or_self,
+    have hc : (isDigitC l && !hasSub [120, 110, 45, 45] raw) = false := by
+      rcases hnd with hnd | hx
+      · rw [hnd l hl]; rfl
+      · rw [hx]; simp
+    simp only [isDigitChar, hlt, ↓reduceIte, hc, pure, Except.pure, mem_false_iff.mpr h58, Bool.or_self,
       Bool.false_eq_true]
     cases idnaDecode e.o raw <;> rfl
+
+/-- an ASCII host whose text before '%' is no IP literal is encoded (validation off) by lower-casing -/
+theorem encodeHost_ascii_noip (o : Oracles) {h : Str} (ha : isAscii h = true)
+    (hp : parseIP (partition 37 h).1 = none) : encodeHost o h false = .ok (lower h) := by
+  obtain ⟨b, hb⟩ := looksIP_ascii o h ha
+  have hr : ipRes h = none := by simp [ipRes, hp]
+  rw [encodeHost_eq, hb]
+  simp only [bind, Except.bind, hr, ite_self, regPath, ha, ↓reduceIte, Bool.false_and, Bool.false_eq_true]
+  rfl
+
+/-- no ':' and no IPv4 text before '%': no IP literal -/
+theorem parseIP_none_of {s : Str} (h58 : 58 ∉ s) (h4 : parseIPv4 (partition 37 s).1 = none) :
+    parseIP (partition 37 s).1 = none := by
+  unfold parseIP
+  rw [h4]
+  cases h6 : parseIPv6 (partition 37 s).1 with
+  | none => rfl
+  | some h8 => exact absurd (partition_fst_sub 37 s 58 (parseIPv6_colon h6)) h58
+
+/-- a lower-case ASCII host without ':' is a fixed point of `_encode_host` (validation off): it is a
+    reg-name, or an IPv4 literal (with or without zone), and both are kept -/
+theorem encodeHost_ascii_self (o : Oracles) {raw : Str} (hasc : isAscii raw = true) (hlow : lower raw = raw)
+    (h58 : 58 ∉ raw) : encodeHost o raw false = .ok raw := by
+  cases hp : parseIP (partition 37 raw).1 with
+  | none => rw [encodeHost_ascii_noip o hasc hp, hlow]
+  | some ip =>
+    cases ip with
+    | v6 h8 =>
+      exact absurd (partition_fst_sub 37 raw 58 (parseIPv6_colon (StrTotal.parseIP_v6 hp).2)) h58
+    | v4 o4 =>
+      obtain ⟨r, hr⟩ : ∃ r, ipRes raw = some r := by
+        unfold ipRes; rw [hp]; exact ⟨_, rfl⟩
+      have hrr := ipRes_v4_eq hp hr
+      subst hrr
+      obtain ⟨b, hb⟩ := looksIP_ascii o r hasc
+      cases b with
+      | true => exact encodeHost_ip hb hr (zoneBad_false r)
+      | false =>
+        rw [encodeHost_eq, hb]
+        simp only [bind, Except.bind, Bool.false_eq_true, ↓reduceIte, regPath, hasc, Bool.false_and, hlow]
+        rfl
 
 /-- a URL whose cache holds the given raw host (as the constructor leaves it) -/
 def urlWithRawHost (raw : Str) : Url :=
@@ -193,6 +246,8 @@ open MiscLemmas
 
 /-- `raw` is what `_encode_host` produced for an IPv4 literal, or for an IPv6 literal (canonical text,
     zone kept): then `URL.host` is `raw` itself and encoding it again gives the stored (bracketed) form.
+    (`URL.host` returns `raw` undecoded because an IPv4 text — digits and dots — ends in a digit and
+    cannot contain "xn--", and an IPv6 text contains ':' whatever its zone id is.)
 
     ADDED HYPOTHESIS `hor` (IPv6 case only, model artefact): `URL.host` evaluates `raw[-1].isdigit()`
     BEFORE `":" in raw`; for a zone id ending in a non-ASCII character the model asks the `isDigitU`
@@ -211,10 +266,11 @@ theorem C16_host_reencodes_ip (e : Env) (u : Url) (raw : Str) : rawHost e u = .o
     have hno : ∀ c, ¬ (c = 46 ∨ isDigitC c = true) → c ∉ raw := fun c hc hm => hc (hch c hm)
     have h58 : 58 ∉ raw := hno 58 (by decide)
     have h37 : 37 ∉ raw := hno 37 (by decide)
-    have hlast : ∃ l, raw.getLast? = some l ∧ isDigitC l = true := by
+    have hxn : hasSub [120, 110, 45, 45] raw = false := SubLemmas.xn_not_in_digits_dots hch
+    have hlast : ∃ l, raw.getLast? = some l ∧ isDigitC l = true ∧ hasSub [120, 110, 45, 45] raw = false := by
       match o4, hl4 with
       | [a, b, c, d], _ =>
-        refine ⟨48 + d % 10, ?_, by simp [isDigitC]; omega⟩
+        refine ⟨48 + d % 10, ?_, by simp [isDigitC]; omega, hxn⟩
         rw [← hs]
         simp only [ipv4ToStr, List.map_cons, List.map_nil, joinC_cons, flatC_cons, flatC_nil, List.append_nil]
         have := natToStr_getLast d
@@ -299,19 +355,25 @@ theorem C16_host_ipv6_oracle_miss :
 
 /-! ### registered names: the decoded host is the IDNA decoding, and it re-encodes to the raw host -/
 
-/-- `raw` is an ASCII host that is not IP-looking (no ':' and the last character is no digit): then
+/-- `raw` is an ASCII host that is not IP-looking for `URL.host` (no ':', and the last character is no
+    digit OR — since commit 60dbf1e — "xn--" occurs in it): then
     `URL.host` is `_idna_decode(raw)`, and the decoded host `h` re-encodes to `raw` under the IDNA
     round-trip hypotheses, stated on the oracle's answers and minimal:
     * if `h` is ASCII (the decoder returned an ASCII name): `lower h = raw`
-      (in particular `h = raw` for a lower-case `raw`);
+      (in particular `h = raw` for a lower-case `raw`); in the NEW case (digit-ending `raw` with "xn--")
+      `_encode_host` finds `h` IP-looking, so additionally the text before '%' is no IPv4 literal, or
+      `h = raw` (witness without it: `raw = "1.2.3.4%xn--5"` decoded by the oracle to `"1.2.3.4%XN--5"`
+      is an IPv4 literal whose zone is kept verbatim, `C16_host_regname_zone_case`);
     * if `h` is not ASCII: the encoder answers `raw` for it, and `_encode_host` takes the IDNA branch for
       `h` — `h` does not look like an IP literal, or it does (it ends in a Unicode digit) but the text
       before '%' is no IP literal.
     That `raw` is lower case is not needed (it follows in the ASCII case and is irrelevant otherwise). -/
 theorem C16_host_reencodes_regname (e : Env) (u : Url) (raw h : Str) : rawHost e u = .ok (some raw) →
-    isAscii raw = true → 58 ∉ raw → (∀ l, raw.getLast? = some l → isDigitC l = false) →
+    isAscii raw = true → 58 ∉ raw →
+    ((∀ l, raw.getLast? = some l → isDigitC l = false) ∨ hasSub [120, 110, 45, 45] raw = true) →
     host e u = .ok (some h) →
-    (isAscii h = true → lower h = raw) →
+    (isAscii h = true → lower h = raw ∧
+      ((∀ l, raw.getLast? = some l → isDigitC l = false) ∨ parseIPv4 (partition 37 raw).1 = none ∨ h = raw)) →
     (isAscii h = false → idnaEncode e.o h = .ok raw ∧
       (looksIP e.o h = .ok false ∨ (looksIP e.o h = .ok true ∧ parseIP (partition 37 h).1 = none))) →
     idnaDecode e.o raw = .ok h ∧ encodeHost e.o h false = .ok raw := by
@@ -324,16 +386,22 @@ theorem C16_host_reencodes_regname (e : Env) (u : Url) (raw h : Str) : rawHost e
   refine ⟨hdec, ?_⟩
   cases ha : isAscii h with
   | true =>
-    have hl := hA ha
+    obtain ⟨hl, hwhy⟩ := hA ha
     have h58' : 58 ∉ h := fun hm => h58 (by rw [← hl]; exact (mem_lower 58 (by omega) h).2 hm)
-    have hnd' : ∀ l, h.getLast? = some l → isDigitC l = false := by
-      intro l hl'
-      have : raw.getLast? = some (lowerC l) := by rw [← hl, getLast?_lower, hl']; rfl
-      have := hnd _ this
-      rwa [isDigitC_lowerC] at this
-    rw [encodeHost_eq, looksIP_false e.o ha h58' hnd']
-    simp only [bind, Except.bind, Bool.false_eq_true, ↓reduceIte, regPath, ha, Bool.false_and, hl]
-    rfl
+    rcases hwhy with hnd0 | h4 | heq
+    · have hnd' : ∀ l, h.getLast? = some l → isDigitC l = false := by
+        intro l hl'
+        have : raw.getLast? = some (lowerC l) := by rw [← hl, getLast?_lower, hl']; rfl
+        have := hnd0 _ this
+        rwa [isDigitC_lowerC] at this
+      rw [encodeHost_eq, looksIP_false e.o ha h58' hnd']
+      simp only [bind, Except.bind, Bool.false_eq_true, ↓reduceIte, regPath, ha, Bool.false_and, hl]
+      rfl
+    · have hp : parseIP (partition 37 h).1 = none := by
+        rw [← C16_parseIP_lower, hl]; exact parseIP_none_of h58 h4
+      rw [encodeHost_ascii_noip e.o ha hp, hl]
+    · subst heq
+      exact encodeHost_ascii_self e.o hasc hl h58
   | false =>
     obtain ⟨henc, hwhy⟩ := hN ha
     have hreg : regPath e.o h false = .ok raw := by
@@ -349,10 +417,26 @@ theorem C16_host_reencodes_regname (e : Env) (u : Url) (raw h : Str) : rawHost e
       simp only [bind, Except.bind, ↓reduceIte, hr]
       exact hreg
 
+/-- COUNTEREXAMPLE to the ASCII clause with only `lower h = raw` once digit-ending raw hosts with "xn--"
+    are allowed: an oracle that decodes `1.2.3.4%xn--5` to `1.2.3.4%XN--5` (an IPv4 literal with a zone,
+    kept verbatim by `_encode_host`).  Not a yarl defect: no real IDNA decoder changes case like that. -/
+theorem C16_host_regname_zone_case :
+    let raw := "1.2.3.4%xn--5".toStr
+    let h := "1.2.3.4%XN--5".toStr
+    let e : Env := { b := .py, o := { Oracles.empty with idnaDec := fun s => if s = raw then some (some h) else none } }
+    let u : Url := urlWithRawHost raw
+    rawHost e u = .ok (some raw) ∧ isAscii raw = true ∧ 58 ∉ raw ∧ hasSub [120, 110, 45, 45] raw = true ∧
+    host e u = .ok (some h) ∧ isAscii h = true ∧ lower h = raw ∧
+    encodeHost e.o h false = .ok h ∧ h ≠ raw := by
+  refine ⟨rfl, by decide, by decide, by decide, by decide +kernel, by decide, by decide, by decide +kernel, by decide⟩
+
 /-- the pure-ASCII case: a lower-case ASCII name that the IDNA decoder maps to itself.  No other
-    hypothesis is needed: the host is the raw host and it re-encodes to itself. -/
+    hypothesis is needed: the host is the raw host and it re-encodes to itself.
+    (The hypothesis on the last character is now "no digit, or `raw` contains xn--";
+    `C16_host_reencodes_ascii_total` shows it is not needed at all here.) -/
 theorem C16_host_reencodes_ascii (e : Env) (u : Url) (raw : Str) : rawHost e u = .ok (some raw) →
-    isAscii raw = true → lower raw = raw → 58 ∉ raw → (∀ l, raw.getLast? = some l → isDigitC l = false) →
+    isAscii raw = true → lower raw = raw → 58 ∉ raw →
+    ((∀ l, raw.getLast? = some l → isDigitC l = false) ∨ hasSub [120, 110, 45, 45] raw = true) →
     e.o.idnaDec raw = some (some raw) →
     host e u = .ok (some raw) ∧ encodeHost e.o raw false = .ok raw := by
   intro hraw hasc hlow h58 hnd hdec
@@ -361,8 +445,38 @@ theorem C16_host_reencodes_ascii (e : Env) (u : Url) (raw : Str) : rawHost e u =
     rfl
   have hhost : host e u = .ok (some raw) := by
     rw [host_of_regname e u raw hraw hasc h58 hnd, hd]; rfl
-  exact ⟨hhost, (C16_host_reencodes_regname e u raw raw hraw hasc h58 hnd hhost (fun _ => hlow)
+  exact ⟨hhost, (C16_host_reencodes_regname e u raw raw hraw hasc h58 hnd hhost
+    (fun _ => ⟨hlow, Or.inr (Or.inr rfl)⟩)
     (fun hna => by rw [hasc] at hna; cases hna)).2⟩
+
+/-- … whatever the last character is: a digit-ending `raw` without "xn--" is returned undecoded, any
+    other is decoded to itself; either way it is a fixed point of `_encode_host` (reg-name or IPv4) -/
+theorem C16_host_reencodes_ascii_total (e : Env) (u : Url) (raw : Str) : rawHost e u = .ok (some raw) →
+    isAscii raw = true → lower raw = raw → 58 ∉ raw →
+    e.o.idnaDec raw = some (some raw) →
+    host e u = .ok (some raw) ∧ encodeHost e.o raw false = .ok raw := by
+  intro hraw hasc hlow h58 hdec
+  refine ⟨?_, encodeHost_ascii_self e.o hasc hlow h58⟩
+  by_cases hx : (∀ l, raw.getLast? = some l → isDigitC l = false) ∨ hasSub [120, 110, 45, 45] raw = true
+  · exact (C16_host_reencodes_ascii e u raw hraw hasc hlow h58 hx hdec).1
+  · have hx1 : ¬ ∀ l, raw.getLast? = some l → isDigitC l = false := fun h => hx (Or.inl h)
+    have hx2 : hasSub [120, 110, 45, 45] raw = false := by
+      cases hh : hasSub [120, 110, 45, 45] raw with
+      | false => rfl
+      | true => exact absurd (Or.inr hh) hx
+    apply host_of_ip_looking e u raw hraw
+    left
+    cases hl : raw.getLast? with
+    | none => exact absurd (fun l h => by rw [hl] at h; cases h) hx1
+    | some l =>
+      refine ⟨l, rfl, ?_, hx2⟩
+      cases hd : isDigitC l with
+      | true => rfl
+      | false =>
+        exfalso; apply hx1
+        intro l' hl'
+        rw [hl] at hl'
+        cases hl'; exact hd
 
 /-! ### idempotence of `_encode_host` on ASCII hosts -/
 
@@ -497,6 +611,24 @@ example : isAscii "example.com".toStr = true ∧ lower "example.com".toStr = "ex
     oA.idnaDec "example.com".toStr = some (some "example.com".toStr) := by
   refine ⟨by decide, by decide, by decide, ?_, rfl⟩
   intro l hl; cases hl; decide
+-- the new disjunct: a digit-ending A-label host ("xn--bcher-kva.h1") is decoded since commit 60dbf1e
+private def oC : Oracles :=
+  { Oracles.empty with
+    idnaDec := fun s => if s = "xn--bcher-kva.h1".toStr then some (some ("b".toStr ++ [252] ++ "cher.h1".toStr)) else none,
+    idnaEnc := fun s => if s = "b".toStr ++ [252] ++ "cher.h1".toStr then some (some "xn--bcher-kva.h1".toStr) else none }
+example : isAscii "xn--bcher-kva.h1".toStr = true ∧ 58 ∉ "xn--bcher-kva.h1".toStr ∧
+    "xn--bcher-kva.h1".toStr.getLast? = some 49 ∧ isDigitC 49 = true ∧
+    hasSub [120, 110, 45, 45] "xn--bcher-kva.h1".toStr = true ∧
+    host { b := .py, o := oC } (mk "xn--bcher-kva.h1") = .ok (some ("b".toStr ++ [252] ++ "cher.h1".toStr)) ∧
+    isAscii ("b".toStr ++ [252] ++ "cher.h1".toStr) = false ∧
+    idnaEncode oC ("b".toStr ++ [252] ++ "cher.h1".toStr) = .ok "xn--bcher-kva.h1".toStr ∧
+    looksIP oC ("b".toStr ++ [252] ++ "cher.h1".toStr) = .ok true ∧
+    parseIP (partition 37 ("b".toStr ++ [252] ++ "cher.h1".toStr)).1 = none ∧
+    encodeHost oC ("b".toStr ++ [252] ++ "cher.h1".toStr) false = .ok "xn--bcher-kva.h1".toStr := by
+  refine ⟨by decide, by decide, by decide, by decide, by decide, by decide +kernel, by decide, by decide +kernel,
+    by decide +kernel, by decide +kernel, by decide +kernel⟩
+-- an IPv4 text contains no "xn--"
+example : hasSub [120, 110, 45, 45] "10.0.0.255".toStr = false := by decide
 example : host { b := .py, o := oA } (mk "example.com") = .ok (some "example.com".toStr) ∧
     encodeHost oA "example.com".toStr false = .ok "example.com".toStr := ⟨rfl, rfl⟩
 -- non-ASCII: "xn--bcher-kva.de" <-> "bücher.de"
